@@ -40,6 +40,10 @@ def arr_of(eng, st, v):
 
 
 def list_arr(eng, st, items):
+    if items and all(isinstance(x, Ref) and isinstance(st.heap[x.oid], ArrV) and st.heap[x.oid].ndim == 1 for x in items):
+        rs = [st.heap[x.oid] for x in items]
+        if not all(isinstance(r.shape[0], int) for r in rs):
+            return ArrV((len(rs), rs[0].shape[0]), lambda i, j, rs=rs: eng.select([r.at(j) for r in rs], i), rs[0].dtype)
     rows = []
     for x in items:
         sub = calls.seq_items(eng, x, st) if isinstance(x, (Ref, tuple)) else None
@@ -73,8 +77,26 @@ def getitem(eng, st, ref, o, idx):
     if len(idx) == 1 and isinstance(idx[0], Ref):
         m = arr_of(eng, st, idx[0])
         if m.dtype == 'bool':
-            return compress(eng, st, o, m)
+            r = compress(eng, st, o, m)
+            if r.oid in eng.compress_info and o.ndim == 1:
+                eng.compress_info[r.oid]['pointwise'] = lambda i, o=o: o.at(i)
+            return r
         return new_ref(st, ArrV(m.shape, lambda *i, o=o, m=m: o.at(m.at(*i)), o.dtype))
+    if len(idx) == 2 and all(isinstance(x, Ref) for x in idx):
+        m = arr_of(eng, st, idx[0])
+        info = eng.compress_info.get(idx[1].oid)
+        if m.dtype == 'bool' and info is not None and info['mask'] is m and callable(info.get('pointwise')):
+            # A[m, B[m]]: row-wise selection under the same mask (same-mask fusion, DESIGN Appendix A)
+            pw_b = info['pointwise']
+            w = o.shape[1]
+            ii = z3.Int(fresh_name('i'))
+            eng.oblige('safe', 'index', st, z3.ForAll([ii], z3.Implies(z3.And(0 <= ii, ii < to_z3(o.shape[0]), to_z3(to_bool(m.at(ii)))),
+                                                                        z3.And(to_z3(neg(w)) <= to_z3(pw_b(ii)), to_z3(pw_b(ii)) < to_z3(w)))))
+            norm = lambda j, w=w: ite(lt(j, 0), add(j, w), j)
+            inner = compress(eng, st, ArrV((o.shape[0],), lambda i, o=o, pw_b=pw_b: o.at(i, norm(pw_b(i))), o.dtype), m)
+            eng.compress_info[inner.oid]['pointwise'] = lambda i, o=o, pw_b=pw_b: o.at(i, norm(pw_b(i)))
+            return inner
+        raise OutOfSubset('fancy indexing with two index arrays')
     if len(idx) > o.ndim:
         raise OutOfSubset('too many indices')
     # mixture of ints / slices
@@ -129,7 +151,9 @@ def compress(eng, st, o, m):
         ms = [to_bool(m.at(k)) for k in range(n)]
         if all(isinstance(b, bool) for b in ms):
             items = [o.at(k) for k in range(n) if ms[k]]
-            return new_ref(st, ArrV((len(items),), lambda i, items=items: eng.select(items, i), o.dtype))
+            res_ref = new_ref(st, ArrV((len(items),), lambda i, items=items: eng.select(items, i), o.dtype))
+            eng.compress_info[res_ref.oid] = {'src': o, 'mask': m}
+            return res_ref
         cnt = 0
         ranks = []
         for k in range(n):
@@ -141,7 +165,9 @@ def compress(eng, st, o, m):
             for k in range(n - 2, -1, -1):
                 r = ite(and_(ms[k], eq(ranks[k], i)), o.at(k), r)
             return r
-        return new_ref(st, ArrV((cnt,), at, o.dtype))
+        res_ref = new_ref(st, ArrV((cnt,), at, o.dtype))
+        eng.compress_info[res_ref.oid] = {'src': o, 'mask': m}
+        return res_ref
     if o.ndim != 1:
         raise OutOfSubset('boolean mask on 2-D array')
     # symbolic length: phi strictly increasing onto the true cells, rank its inverse (DESIGN 2.3)
@@ -294,7 +320,50 @@ def reduce_anyall(eng, st, a, name):
     return z3.Exists(idxs, z3.And(rng, cell))
 
 
+def axis_of(args, kwargs, ndim):
+    ax = kwargs.get('axis', args[0] if args else None)
+    if ax is None:
+        return None
+    ax = concrete(ax)
+    if ax < 0:
+        ax += ndim
+    return int(ax)
+
+
+def reduce_axis(eng, st, a, axis, op):
+    """reduction of a 2-D array along an axis whose extent is concrete; op in {'all','any','sum','max','min'}"""
+    if a.ndim != 2:
+        raise OutOfSubset('axis reduction of a %d-D array' % a.ndim)
+    n = a.shape[axis]
+    if not isinstance(n, int):
+        raise OutOfSubset('reduction along an axis of symbolic extent')
+    other = a.shape[1 - axis]
+
+    def at(i, a=a):
+        cells = [a.at(i, k) if axis == 1 else a.at(k, i) for k in range(n)]
+        if op == 'all':
+            return and_(*[to_bool(c) for c in cells])
+        if op == 'any':
+            return or_(*[to_bool(c) for c in cells])
+        if op == 'sum':
+            r = 0
+            for c in cells:
+                r = add(r, c)
+            return r
+        r = cells[0]
+        for c in cells[1:]:
+            r = maxv(r, c) if op == 'max' else minv(r, c)
+        return r
+    dt = 'bool' if op in ('all', 'any') else ('int' if a.dtype in ('bool', 'int') else 'real')
+    return new_ref(st, ArrV((other,), at, dt))
+
+
 def arr_method(eng, st, ref, o, name, args, kwargs):
+    if name in ('min', 'max', 'sum', 'any', 'all') and (args or 'axis' in kwargs):
+        ax = axis_of(args, kwargs, o.ndim)
+        if ax is not None:
+            yield reduce_axis(eng, st, o, ax, name), st
+            return
     if name in ('min', 'max'):
         if args or kwargs:
             raise OutOfSubset('axis argument of %s' % name)
@@ -357,22 +426,32 @@ def np_max(eng, st, args, kwargs):
 
 @lib('numpy.sum')
 def np_sum(eng, st, args, kwargs):
-    if len(args) > 1 or kwargs:
-        raise OutOfSubset('np.sum with axis')
     a = arr_of(eng, st, args[0])
+    if len(args) > 1 or kwargs:
+        ax = axis_of(args[1:], kwargs, a.ndim)
+        if ax is None:
+            raise OutOfSubset('np.sum with keyword arguments')
+        yield reduce_axis(eng, st, a, ax, 'sum'), st
+        return
     yield reduce_sum(eng, st, a), st
 
 
 @lib('numpy.any')
 def np_any(eng, st, args, kwargs):
-    yield reduce_anyall(eng, st, arr_of(eng, st, args[0]), 'any'), st
+    a = arr_of(eng, st, args[0])
+    if len(args) > 1 or kwargs:
+        yield reduce_axis(eng, st, a, axis_of(args[1:], kwargs, a.ndim), 'any'), st
+        return
+    yield reduce_anyall(eng, st, a, 'any'), st
 
 
 @lib('numpy.all')
 def np_all(eng, st, args, kwargs):
+    a = arr_of(eng, st, args[0])
     if len(args) > 1 or kwargs:
-        raise OutOfSubset('np.all with axis')
-    yield reduce_anyall(eng, st, arr_of(eng, st, args[0]), 'all'), st
+        yield reduce_axis(eng, st, a, axis_of(args[1:], kwargs, a.ndim), 'all'), st
+        return
+    yield reduce_anyall(eng, st, a, 'all'), st
 
 
 @lib('numpy.asarray', 'numpy.array', 'numpy.atleast_1d')
@@ -403,15 +482,33 @@ def np_minimum(eng, st, args, kwargs):
 
 @lib('numpy.logical_and')
 def np_land(eng, st, args, kwargs):
-    if len(args) > 2 or kwargs:
-        raise OutOfSubset('logical_and with out=')
+    if kwargs:
+        raise OutOfSubset('logical op with keywords')
+    if len(args) == 3:
+        # third positional argument of a ufunc is `out`: the result is written into that object
+        r = eng.elementwise(lambda x, y: and_(to_bool(x), to_bool(y)), args[0], args[1], st, 'bool')
+        out = args[2]
+        eng.note_mutation(out, st)
+        o = st.heap[out.oid]
+        st.heap[out.oid] = ArrV(o.shape, st.heap[r.oid].at, 'bool', o.origin)
+        yield out, st
+        return
     yield eng.elementwise(lambda x, y: and_(to_bool(x), to_bool(y)), args[0], args[1], st, 'bool'), st
 
 
 @lib('numpy.logical_or')
 def np_lor(eng, st, args, kwargs):
-    if len(args) > 2 or kwargs:
-        raise OutOfSubset('logical_or with out=')
+    if kwargs:
+        raise OutOfSubset('logical op with keywords')
+    if len(args) == 3:
+        # third positional argument of a ufunc is `out`: the result is written into that object
+        r = eng.elementwise(lambda x, y: or_(to_bool(x), to_bool(y)), args[0], args[1], st, 'bool')
+        out = args[2]
+        eng.note_mutation(out, st)
+        o = st.heap[out.oid]
+        st.heap[out.oid] = ArrV(o.shape, st.heap[r.oid].at, 'bool', o.origin)
+        yield out, st
+        return
     yield eng.elementwise(lambda x, y: or_(to_bool(x), to_bool(y)), args[0], args[1], st, 'bool'), st
 
 
@@ -441,9 +538,35 @@ def _cmp(eng, st, args, f):
     return eng.elementwise(f, args[0], args[1], st, 'bool')
 
 
-@lib('numpy.zeros', 'numpy.ones')
+def _shape_arg(eng, st, v):
+    if isinstance(v, tuple):
+        return tuple(v)
+    items = calls.seq_items(eng, v, st) if isinstance(v, Ref) else None
+    if items is not None:
+        return tuple(items)
+    return (v,)
+
+
+def _dtype_arg(kwargs, default='real'):
+    t = kwargs.get('dtype')
+    if t is None:
+        return default
+    tn = t.name if isinstance(t, FnV) else str(t)
+    return 'bool' if 'bool' in tn else ('int' if 'int' in tn else 'real')
+
+
+@lib('numpy.zeros')
 def np_zeros(eng, st, args, kwargs):
-    raise OutOfSubset('np.zeros/ones')
+    dt = _dtype_arg(kwargs)
+    z = {'real': 0.0, 'int': 0, 'bool': False}[dt]
+    yield new_ref(st, ArrV(_shape_arg(eng, st, args[0]), lambda *i: z, dt)), st
+
+
+@lib('numpy.ones')
+def np_ones(eng, st, args, kwargs):
+    dt = _dtype_arg(kwargs)
+    o = {'real': 1.0, 'int': 1, 'bool': True}[dt]
+    yield new_ref(st, ArrV(_shape_arg(eng, st, args[0]), lambda *i: o, dt)), st
 
 
 @lib('numpy.isnan')
